@@ -47,6 +47,8 @@ struct Oracle {
     clock_seq: u64,
     backward_meddle: bool,
     stopped: bool,
+    /// error common to every network server (their shared upstream jumped); PPS-like sources are local hardware and unaffected
+    common_err: f64,
 }
 
 type Shared = Arc<Mutex<Oracle>>;
@@ -614,15 +616,26 @@ impl Handle {
         }
     }
     fn measure(&mut self, m: Measurement) {
-        match self {
+        // the wrapper and the per-source filter are real code: a panic here is the daemon's
+        let r = exec::catch(std::panic::AssertUnwindSafe(|| match self {
             Handle::Two(h) => h.handle_measurement(m),
             Handle::One(h) => h.handle_measurement(m),
+        }));
+        if let Err(msg) = r {
+            simkit::violation("C06", "source-controller-panic", format!("handle_measurement panicked: {msg}"));
         }
     }
     fn observe(&self) -> ntp_proto::ObservableSourceTimedata {
-        match self {
+        let r = exec::catch(std::panic::AssertUnwindSafe(|| match self {
             Handle::Two(h) => h.observe(),
             Handle::One(h) => h.observe(),
+        }));
+        match r {
+            Ok(o) => o,
+            Err(msg) => {
+                simkit::violation("C06", "source-controller-panic", format!("observe() panicked: {msg}"));
+                ntp_proto::ObservableSourceTimedata::default()
+            }
         }
     }
     fn desired_poll(&self) -> PollInterval {
@@ -644,7 +657,9 @@ struct SrcTask {
     cfg: SourceConfig,
     nops: u64,
     spacing_bias: u64,
+    /// scripted source: only measures, short spacing, lives until `live_ns`
     scenario: bool,
+    live_ns: u64,
 }
 
 impl SrcTask {
@@ -663,9 +678,10 @@ impl SrcTask {
     }
 
     fn server_raw(&self, now_ns: u64, extra: f64) -> u64 {
+        let common = if self.kind == Kind::Periodic { 0.0 } else { self.sh.lock().unwrap().common_err };
         self.epoch_true
             .wrapping_add(ticks(now_ns))
-            .wrapping_add(secs_to_fixed(self.truth.err + extra) as u64)
+            .wrapping_add(secs_to_fixed(self.truth.err + common + extra) as u64)
     }
 
     async fn one_measurement(&self, id: ClockId, h: &mut Handle) {
@@ -699,6 +715,12 @@ impl SrcTask {
         };
         match self.kind {
             Kind::TwoWay => {
+                // the daemon's NTP source task reports the source's estimate at its poll timer too
+                let ob = h.observe();
+                simkit::oracle("C06");
+                if ob.uncertainty.to_seconds() < 0.0 {
+                    simkit::violation("C06", "observed-uncertainty-nonnegative", format!("source {id} observe() at poll time: uncertainty {}", ob.uncertainty.to_seconds()));
+                }
                 let t1 = self.clock.raw_now();
                 exec::sleep_ns((d1 * 1e9) as u64).await;
                 let t2 = self.server_raw(simkit::now_ns(), outlier);
@@ -760,7 +782,7 @@ impl SrcTask {
             }
             // scenario sources all live for the same 600 simulated seconds, so that every
             // one of them is past its start-up samples while the others still measure
-            if self.scenario && simkit::now_ns() > 600_000_000_000 {
+            if self.scenario && simkit::now_ns() > self.live_ns {
                 break;
             }
             // spacing: at least 1 ms beyond the exchange itself
@@ -852,8 +874,13 @@ pub fn run() {
     // offset D chosen clearly inside or clearly outside the startup threshold; the daemon must then
     // step by about -D, or stop without stepping. Only part of the C01 batch; always fault-free.
     let scenario = focus == "C01" && chance("cfg.c01-scenario", 0.3);
-    let clean = scenario || chance("cfg.faulty", 0.75) == false;
-    let n_src = if scenario { 2 + choose("cfg.nsrc", 3) as usize } else { 2 + choose("cfg.nsrc", 8) as usize }; // 2..=9
+    // C06 scenario: a PPS-like periodic source that has settled, then the upstream of all network
+    // servers is corrected by X (so the daemon follows with a step), then steering continues for a
+    // long time: exercises the periodic filter's step/frequency feedback far from start-up.
+    let pps = focus == "C06" && !scenario && chance("cfg.c06-pps", 0.12);
+    let scripted = scenario || pps;
+    let clean = scenario || (!pps && chance("cfg.faulty", 0.75) == false);
+    let n_src = if pps { 3 + choose("cfg.nsrc", 2) as usize } else if scenario { 2 + choose("cfg.nsrc", 3) as usize } else { 2 + choose("cfg.nsrc", 8) as usize }; // 2..=9
     let mut sync = SynchronizationConfig::default();
     sync.minimum_agreeing_sources = 1 + weighted("cfg.minagree", &[4, 3, 2, 1]);
     sync.startup_step_panic_threshold = swarm_threshold("cfg.thr.startup");
@@ -888,10 +915,16 @@ pub fn run() {
     if chance("cfg.ignore-disp", 0.2) {
         algo.ignore_server_dispersion = true;
     }
-    if scenario {
+    if scripted {
         algo = AlgorithmConfig::default();
     }
-    let kernel_freq = if scenario { 0.0 } else { 1.0 } * [0.0, 20e-6, -400e-6, 2.0 * algo.maximum_frequency_steer, -1.5 * algo.maximum_frequency_steer][weighted("cfg.kfreq", &[4, 2, 2, 1, 1])];
+    if pps {
+        sync.startup_step_panic_threshold = StepThreshold { forward: None, backward: None };
+        sync.single_step_panic_threshold = StepThreshold { forward: None, backward: None };
+        sync.accumulated_step_panic_threshold = None;
+        sync.minimum_agreeing_sources = sync.minimum_agreeing_sources.min(n_src - 1);
+    }
+    let kernel_freq = if scripted { 0.0 } else { 1.0 } * [0.0, 20e-6, -400e-6, 2.0 * algo.maximum_frequency_steer, -1.5 * algo.maximum_frequency_steer][weighted("cfg.kfreq", &[4, 2, 2, 1, 1])];
     if kernel_freq.abs() > algo.maximum_frequency_steer {
         fault("bad-initial-kernel-freq");
     }
@@ -918,6 +951,7 @@ pub fn run() {
         clock_seq: 0,
         backward_meddle: false,
         stopped: false,
+        common_err: 0.0,
     }));
     CURRENT.with(|c| *c.borrow_mut() = Some(sh.clone()));
     ev!(
@@ -950,7 +984,10 @@ pub fn run() {
         let (done_tx, mut done_rx) = tokio::sync::mpsc::unbounded_channel::<usize>();
         let heavy = focus == "C06" || chance("cfg.extreme", 0.3);
         let kinds: Vec<Kind> = (0..n_src)
-            .map(|_| match if scenario { 0 } else { weighted("cfg.kind", &[8, 1, 1]) } {
+            .collect::<Vec<_>>()
+            .iter()
+            .enumerate()
+            .map(|(i, _)| match if pps { if i == 0 { 2 } else { 0 } } else if scenario { 0 } else { weighted("cfg.kind", &[8, 1, 1]) } {
                 0 => Kind::TwoWay,
                 1 => Kind::OneWay,
                 _ => Kind::Periodic,
@@ -961,7 +998,7 @@ pub fn run() {
         let has_periodic = kinds.contains(&Kind::Periodic);
         for idx in 0..n_src {
             let kind = kinds[idx];
-            let falseticker = !clean && chance("cfg.falseticker", 0.25);
+            let falseticker = !clean && !pps && chance("cfg.falseticker", 0.25);
             let err = if falseticker {
                 fault("server-falseticker");
                 let e: f64 = [0.05, -0.4, 3.0, -120.0, 4000.0][choose("cfg.fterr", 5) as usize];
@@ -974,17 +1011,17 @@ pub fn run() {
                 min: PollInterval::from_byte(lo),
                 max: PollInterval::from_byte(hi),
             };
-            let leap = if clean { NtpLeapIndicator::NoWarning } else { leap_for(weighted("cfg.leap", &[6, 2, 2, 1, 1]) as u64) };
+            let leap = if clean || pps { NtpLeapIndicator::NoWarning } else { leap_for(weighted("cfg.leap", &[6, 2, 2, 1, 1]) as u64) };
             let truth = ServerTruth {
                 err,
                 falseticker,
-                base_delay: [0.0002, 0.005, 0.04, 0.0, 0.4][choose("cfg.delay", if scenario { 3 } else { 5 }) as usize],
-                jitter: [0.0, 0.00005, 0.002, 0.05][choose("cfg.jitter", if scenario { 2 } else { 4 }) as usize],
-                asym: if scenario { 0.0 } else { [0.0, 0.1, -0.5, 0.9][weighted("cfg.asym", &[5, 2, 1, 1])] },
+                base_delay: [0.0002, 0.005, 0.04, 0.0, 0.4][choose("cfg.delay", if scripted { 3 } else { 5 }) as usize],
+                jitter: [0.0, 0.00005, 0.002, 0.05][choose("cfg.jitter", if scenario { 2 } else if pps { 3 } else { 4 }) as usize],
+                asym: if scripted { 0.0 } else { [0.0, 0.1, -0.5, 0.9][weighted("cfg.asym", &[5, 2, 1, 1])] },
                 leap,
-                root_delay: [0.001, 0.0, 0.05, 2.0][choose("cfg.rootdelay", if scenario { 2 } else { 4 }) as usize],
-                root_disp: [0.001, 0.0, 0.02, 1.0][choose("cfg.rootdisp", if scenario { 2 } else { 4 }) as usize],
-                extreme: heavy && !clean,
+                root_delay: [0.001, 0.0, 0.05, 2.0][choose("cfg.rootdelay", if scripted { 2 } else { 4 }) as usize],
+                root_disp: [0.001, 0.0, 0.02, 1.0][choose("cfg.rootdisp", if scripted { 2 } else { 4 }) as usize],
+                extreme: heavy && !clean && !pps,
                 huge_ok: !has_periodic,
             };
             ev!("cfg src{idx} {kind:?} {truth:?} limits=({lo},{hi})");
@@ -1000,9 +1037,10 @@ pub fn run() {
                     poll_interval_limits: limits,
                     initial_poll_interval: limits.min,
                 },
-                nops: if scenario { 2000 } else { 10 + choose("cfg.nops", 120) },
-                spacing_bias: if !scenario && chance("cfg.slowpoll", 0.15) { 6 } else { 0 },
-                scenario,
+                nops: if scripted { 2000 } else { 10 + choose("cfg.nops", 120) },
+                spacing_bias: if !scripted && chance("cfg.slowpoll", 0.15) { 6 } else { 0 },
+                scenario: scripted,
+                live_ns: if pps { 2_600_000_000_000 } else { 600_000_000_000 },
             };
             let tx = done_tx.clone();
             tasks.push(exec::spawn(format!("src{idx}"), async move {
@@ -1017,9 +1055,27 @@ pub fn run() {
             let sh_e = sh2.clone();
             let allow_backward = focus != "C06";
             exec::spawn("env", async move {
+                if pps {
+                    exec::sleep_ns((300 + choose("env.pps.wait", 100)) * 1_000_000_000).await;
+                    let x = [-1000.3, -20.3, 50.4, -3.3][choose("env.pps.x", 4) as usize];
+                    fault("common-mode-server-jump");
+                    probe("pps-scenario-jump");
+                    ev!("env all network servers jump by {x}");
+                    sh_e.lock().unwrap().common_err += x;
+                    return;
+                }
                 for _ in 0..choose("env.n", 6) {
-                    exec::sleep_ns(1_000_000_000 + choose("env.wait", 4000) * 1_000_000_000).await;
-                    match choose("env.kind", 3) {
+                    // mostly early (while most sources still measure), sometimes late
+                    let span = if chance("env.late", 0.25) { 4000 } else { 400 };
+                    exec::sleep_ns(1_000_000_000 + choose("env.wait", span) * 1_000_000_000).await;
+                    match choose("env.kind", 4) {
+                        3 => {
+                            // every network server follows the same upstream, which is corrected by X
+                            let x = [-20.0, -1000.3, 50.0, -100.0, 0.4][choose("env.common", 5) as usize];
+                            fault("common-mode-server-jump");
+                            ev!("env all network servers jump by {x}");
+                            sh_e.lock().unwrap().common_err += x;
+                        }
                         0 => {
                             let f = [50e-6, -80e-6, 400e-6, 0.0][choose("env.freq", 4) as usize];
                             fault("freq-excursion");
